@@ -87,6 +87,7 @@ def run(ctx):
     warnings.simplefilter("ignore")
     io.restore_tracebacks()
     ok_proofs = ctx.check_props(extra=["theories/Corr/Corr_C18.v"])
+    io.tick(ctx, "proofs")
     rng = ctx.rng
     nprob = 30 if ctx.quick else 300
     depth, cap = (4, 25) if ctx.quick else (5, 40)
@@ -146,12 +147,12 @@ def run(ctx):
         stats["timed_goals"] += len(P.timed_goals)
         cases.append(case)
         owners.append({"P": P, "Q": Q, "mapping": mapping, "reader": "anml", "payload": payload, "info": info, "feats": feats})
+    io.tick(ctx, "implementation runs")
     codes = ctx.coq_codes(cases, "Corr_C18.code", imports=io.IMPORTS, shard=8, label="c19") if cases else []
-    sizes = ctx.coq_codes(cases, "Corr_C18.size_code", imports=io.IMPORTS, shard=8, label="c19size") if cases else []
+    io.tick(ctx, "coq")
     nontrivial, samples = set(), []
-    for k, (o, code, sz) in enumerate(zip(owners, codes, sizes)):
-        bis, tdiff, pfail, mdiff = io.decode(code)
-        nstates, bound = sz // 100, sz % 100
+    for k, (o, code) in enumerate(zip(owners, codes)):
+        bis, tdiff, pfail, mdiff, nstates, bound = io.decode(code)
         o["size"] = (nstates, bound)
         if bis == 0:
             stats["bisim"]["closed"] += 1
